@@ -287,8 +287,32 @@ func (x *G) Decl() string {
 	case 13, 14:
 		name = "flex"
 		val = x.pick("flex", []string{"1", "0 1 auto", "1 1 auto", "0 0 auto", "1 1 0", "1 1 0px", "1 1 0%", "2 1 0", "1 0", "1 0px", "1 2 10px", "none", "auto", "initial", "0 0 0", "1 1 10%", "2", "0.5 1 0%", "1 1 calc(10px + 1%)", "10px", "1 10px"})
+		if x.chance("flexbuilt", 2) {
+			// grow and shrink factors with any number of digits
+			grow := x.pick("flexgrow", []string{"0", "1", "2", "10", "12", "1.5", ".5", "100", "1e1", "01"})
+			shrink := x.pick("flexshrink", []string{"0", "1", "2", "10", "1.0", "11"})
+			basis := x.pick("flexbasis", []string{"auto", "0", "0px", "0%", "10px", "10%", "content", "AUTO"})
+			switch x.n("flexform", 3) {
+			case 0:
+				val = grow
+			case 1:
+				val = grow + x.ws() + shrink
+			case 2:
+				val = grow + x.ws() + basis
+			default:
+				val = grow + x.ws() + shrink + x.ws() + basis
+			}
+			x.Feats["flex-built"]++
+		}
 		x.Feats["flex"]++
 	case 15:
+		if x.chance("zerounit", 2) {
+			// zero with a unit that is not a length (or an uncommon length): the unit stays unless the grammar allows a bare 0
+			pv := [][2]string{{"grid-template-columns", "0fr 1fr"}, {"grid-template-rows", "0fr"}, {"grid-template-columns", "1fr 0FR 2fr"}, {"transition-duration", "0s"}, {"transition-delay", "0ms"}, {"animation-duration", "0s,0ms"}, {"animation-delay", "0S"},
+				{"grid-template-columns", "minmax(0fr,1fr)"}, {"width", "0cqw"}, {"height", "0dvh"}, {"min-width", "0vi"}, {"line-height", "0lh"}, {"image-resolution", "0dppx"}, {"grid-auto-rows", "0fr"}, {"voice-pitch", "0hz"}, {"margin-left", "0rlh"}, {"width", "0pc"}, {"width", "0vmax"}}[x.n("zerounitpv", 17)]
+			x.Feats["zero-uncommon-unit"]++
+			return pv[0] + x.ows() + ":" + x.ows() + pv[1]
+		}
 		name = x.pick("flexsub", []string{"flex-basis", "flex-grow", "flex-shrink", "order"})
 		val = x.pick("flexsubv", []string{"initial", "0", "1", "auto", "0px", "10px", "0%", "2", "-1", "inherit"})
 	case 16, 17:
